@@ -7,12 +7,14 @@ package main
 import (
 	"bufio"
 	"bytes"
+	"encoding/json"
 	"errors"
 	"flag"
 	"fmt"
 	"math/rand"
 	"os"
 	"sort"
+	"strings"
 
 	clover "github.com/ostafen/clover/v2"
 	"github.com/ostafen/clover/v2/document"
@@ -59,6 +61,8 @@ func cmdAux(args []string) {
 		auxCursor(r, *n, emit, stats)
 	case "plan":
 		auxPlan(r, *seed, *n, emit, stats)
+	case "rwset":
+		auxRwset(emit, stats)
 	case "norm":
 		auxNorm(r, *n, emit, stats)
 	case "docpath":
@@ -776,5 +780,180 @@ func auxPlan(r *rand.Rand, seed int64, n int, emit func(E), stats map[string]int
 		}
 		emit(E{"kind": "plan", "crit": c, "indexed": idx, "selected": selected, "ranges": ranges, "docs": docs, "panicked": panicked})
 		stats[fmt.Sprintf("plan/selected=%d/ranges=%d", len(selected), len(ranges))]++
+	}
+}
+
+// ---------------------------------------------------------------- C07: read / write sets (TraceRW.tla)
+
+// auxRwset executes every operation of CloverConc's pool alone, on every small initial content,
+// and records which keys its store transaction reads and writes.
+func auxRwset(emit func(E), stats map[string]int) {
+	ids := []string{uuidPool[0], uuidPool[1]}
+	coll := "c"
+	dir, _ := os.MkdirTemp(scratchBase(), "verif-rw-")
+	defer os.RemoveAll(dir)
+	prefixE := map[int][]byte{}
+	for v := 1; v <= 2; v++ {
+		k, _ := indexKey(coll, "x", int64(v), "")
+		prefixE[v] = k
+	}
+	absKey := func(key []byte) []interface{} {
+		ks := string(key)
+		switch {
+		case ks == "coll:"+coll:
+			return []interface{}{"M"}
+		case strings.HasPrefix(ks, "c:"+coll+";d:"):
+			for i, id := range ids {
+				if ks == "c:"+coll+";d:"+id {
+					return []interface{}{"D", i + 1}
+				}
+			}
+		case strings.HasPrefix(ks, "c:"+coll+";i:x;"):
+			for v, pf := range prefixE {
+				for i, id := range ids {
+					if ks == string(pf)+id {
+						return []interface{}{"E", v, i + 1}
+					}
+				}
+			}
+		}
+		return nil
+	}
+	type opT []interface{}
+	var ops []opT
+	for i := 1; i <= 2; i++ {
+		for v := 1; v <= 2; v++ {
+			ops = append(ops, opT{"Insert", i, v}, opT{"UpdateById", i, v})
+		}
+		ops = append(ops, opT{"DeleteById", i})
+	}
+	for a := 1; a <= 2; a++ {
+		for bb := 1; bb <= 2; bb++ {
+			ops = append(ops, opT{"UpdateWhere", a, bb})
+		}
+		ops = append(ops, opT{"DeleteWhere", a})
+	}
+	ops = append(ops, opT{"CreateIndex"}, opT{"DropIndex"})
+
+	project := func(b *Backend) E {
+		tx, _ := b.st.Begin(false)
+		defer tx.Rollback()
+		cur, _ := tx.Cursor(true)
+		defer cur.Close()
+		docs := []interface{}{0, 0}
+		ents := make([]interface{}, 0)
+		idx, size := 0, -1
+		cur.Seek([]byte{})
+		for ; cur.Valid(); cur.Next() {
+			it, _ := cur.Item()
+			k := absKey(it.Key)
+			if k == nil {
+				continue
+			}
+			switch k[0] {
+			case "M":
+				var meta struct {
+					Size    int
+					Indexes []index.Info
+				}
+				json.Unmarshal(it.Value, &meta)
+				size = meta.Size
+				if len(meta.Indexes) > 0 {
+					idx = 1
+				}
+			case "D":
+				d, err := document.Decode(it.Value)
+				if err == nil {
+					if x, ok := d.Get("x").(int64); ok {
+						docs[k[1].(int)-1] = int(x)
+					}
+				}
+			case "E":
+				ents = append(ents, []interface{}{k[1], k[2]})
+			}
+		}
+		return E{"idx": idx, "size": size, "docs": docs, "ents": ents}
+	}
+
+	for _, be := range []string{"bolt", "badgermem"} {
+		for ix := 0; ix <= 1; ix++ {
+			for d1 := 0; d1 <= 2; d1++ {
+				for d2 := 0; d2 <= 2; d2++ {
+					for _, op := range ops {
+						in := &injector{}
+						b, err := NewBackend(be, dir, func(s store.Store) store.Store { return &wStore{inner: s, in: in} })
+						if err != nil {
+							panic(err)
+						}
+						b.db.CreateCollection(coll)
+						if ix == 1 {
+							b.db.CreateIndex(coll, "x")
+						}
+						for i, v := range []int{d1, d2} {
+							if v > 0 {
+								d := document.NewDocument()
+								d.Set("_id", ids[i])
+								d.Set("x", int64(v))
+								b.db.Insert(coll, d)
+							}
+						}
+						pre := project(b)
+						reads, writes := make([]interface{}, 0), make([]interface{}, 0)
+						seenR, seenW := map[string]bool{}, map[string]bool{}
+						in.keylog = func(kind string, key []byte) {
+							k := absKey(key)
+							if k == nil {
+								return
+							}
+							ks := fmt.Sprint(k)
+							if kind == "get" || kind == "item" {
+								if !seenR[ks] {
+									seenR[ks] = true
+									reads = append(reads, k)
+								}
+							} else if !seenW[ks] {
+								seenW[ks] = true
+								writes = append(writes, k)
+							}
+						}
+						var err2 error
+						xq := func(a int) *query.Query { return query.NewQuery(coll).Where(query.Field("x").Eq(int64(a))) }
+						switch op[0].(string) {
+						case "Insert":
+							d := document.NewDocument()
+							d.Set("_id", ids[op[1].(int)-1])
+							d.Set("x", int64(op[2].(int)))
+							err2 = b.db.Insert(coll, d)
+						case "UpdateById":
+							v := int64(op[2].(int))
+							err2 = b.db.UpdateById(coll, ids[op[1].(int)-1], func(d *document.Document) *document.Document {
+								c := d.Copy()
+								c.Set("x", v)
+								return c
+							})
+						case "DeleteById":
+							err2 = b.db.DeleteById(coll, ids[op[1].(int)-1])
+						case "UpdateWhere":
+							err2 = b.db.Update(xq(op[1].(int)), map[string]interface{}{"x": int64(op[2].(int))})
+						case "DeleteWhere":
+							err2 = b.db.Delete(xq(op[1].(int)))
+						case "CreateIndex":
+							err2 = b.db.CreateIndex(coll, "x")
+						case "DropIndex":
+							err2 = b.db.DropIndex(coll, "x")
+						}
+						in.keylog = nil
+						st := "ok"
+						if err2 != nil {
+							st = "err"
+						}
+						post := project(b)
+						emit(E{"kind": "rwset", "be": be, "pre": pre, "op": []interface{}(op), "reads": reads, "writes": writes, "st": st, "post": post})
+						stats["rwset/"+op[0].(string)+"/"+st]++
+						b.Destroy()
+					}
+				}
+			}
+		}
 	}
 }
